@@ -15,6 +15,9 @@ def _trace_only(prop):
 
 
 CHECKS = {p: _trace_only(p) for p in checks.PROFILES}
+from . import hands_check  # noqa: E402
+CHECKS['C04'] = hands_check.check_C04
+CHECKS['C05'] = hands_check.check_C05
 
 
 def replay(pid: str, path: str) -> int:
